@@ -18,5 +18,9 @@ def spec():
         Row('C0', 'E3', 'C1'),
         Row('C1', 'E3', 'C0'),
         Row('C1', 'E2', 'Term'),
+        # both blocking kinds active at once: an end-interrupt event that terminates another region while the
+        # interrupt state stays (its own row rejected), and one event that interrupts and terminates in one step
+        Row('C0', 'E5', 'Term', guard=3, actions=['e5term']),
+        Row('C1', 'E1', 'Term', actions=['e1term']),
     ])
     return {'name': 'M08', 'events': ['E0', 'E1', 'E2', 'E3', 'E4', 'E5'], 'flags': ['F0', 'F1'], 'root': root}
